@@ -310,6 +310,17 @@ func (c *simConn) isClosed() bool {
 	return c.closed
 }
 
+// isDead: closed here, reset, or ended by the other side with nothing left to read.
+func (c *simConn) isDead() bool {
+	if c.isClosed() {
+		return true
+	}
+	h := c.r
+	h.mu.Lock()
+	defer h.mu.Unlock()
+	return h.reset || (h.eof && len(h.buf) == 0 && len(h.pending) == 0)
+}
+
 func (c *simConn) LocalAddr() net.Addr  { return c.la }
 func (c *simConn) RemoteAddr() net.Addr { return c.ra }
 func (c *simConn) SetDeadline(t time.Time) error {
